@@ -162,7 +162,7 @@ def base_doc(names):
     }
 
 
-def gen_history(rng, length, meta):
+def gen_history(rng, length, meta, share="random"):
     pool = list(PLAIN_NAMES) + (rng.sample(META_NAMES, 3) if meta else [])
     names = rng.sample(pool, 3) if not meta else rng.sample(META_NAMES, 2) + rng.sample(PLAIN_NAMES, 1)
     doc = base_doc(names)
@@ -171,12 +171,22 @@ def gen_history(rng, length, meta):
     ops = []
     flav = 3
     val = lambda slot: pick_value(rng, cur, slot, VALUES)
+    # the caller's dictionaries: "add" = components are stamped out of 1-2 template dictionaries (same nested
+    # objects handed to several add_component calls; the caller scribbles on its dictionary afterwards in 40% of
+    # the calls), "update" = the same for update_component (no scribbling), None = a new dictionary per call
+    share = share if share != "random" else rng.choice([None, None, "add", "add", "update"])
+    tpl_flavour = [rng.randint(4, 12), rng.randint(4, 12)]
+    kinds = ["setVar", "setVar", "delVar", "setOption", "setOption", "removeOption", "setGlobalVar",
+             "setStageVar", "setPlatGlobalVar", "setPlatStageVar", "addComp", "updateComp", "deleteComp",
+             "query", "query", "query", "sweep", "sweep",
+             "queryF", "queryF", "queryF", "read", "read", "read", "touchComp", "touchVars",
+             "setVarViaRef", "setGlobalVarViaRef"]
+    if share == "add":
+        kinds += ["addComp"] * 5 + ["deleteComp"]
+    elif share == "update":
+        kinds += ["updateComp"] * 5
     for _ in range(length):
-        kind = rng.choice(["setVar", "setVar", "delVar", "setOption", "setOption", "removeOption", "setGlobalVar",
-                           "setStageVar", "setPlatGlobalVar", "setPlatStageVar", "addComp", "updateComp", "deleteComp",
-                           "query", "query", "query", "sweep", "sweep",
-                           "queryF", "queryF", "queryF", "read", "read", "read", "touchComp", "touchVars",
-                           "setVarViaRef", "setGlobalVarViaRef"])
+        kind = rng.choice(kinds)
         known = list(live.items())
         if rng.random() < 0.08 or not known:
             target = (rng.choice(pool), rng.choice([0, 1]))          # possibly unknown component
@@ -211,16 +221,25 @@ def gen_history(rng, length, meta):
             P, st, v = rng.choice(PLATFORMS), rng.choice([0, 1, 2]), rng.choice(VARS)
             ops.append({"op": kind, "platform": P, "stage": st, "var": v, "value": val(("stage", P, st, v))})
         elif kind == "addComp":
-            n2 = rng.choice(pool)
+            free = [x for x in pool if x not in live]
+            n2 = rng.choice(free) if free and share == "add" and rng.random() < 0.8 else rng.choice(pool)
             i2 = rng.choice([0, 1])
             flav += 1
-            ops.append({"op": kind, "stage": i2, "name": n2, "body": body(n2, i2, flavour=flav)})
+            op = {"op": kind, "stage": i2, "name": n2, "body": body(n2, i2, flavour=flav)}
+            if share == "add" and rng.random() < 0.85:
+                t = rng.choice([0, 0, 1])
+                op.update(body=body(n2, i2, flavour=tpl_flavour[t]), share=t, scribble=rng.random() < 0.4)
+            ops.append(op)
             if n2 not in live:
                 live[n2] = i2
                 note_body(cur, ops[-1]["body"])
         elif kind == "updateComp":
             flav += 1
-            ops.append({"op": kind, "stage": i, "name": n, "body": body(n, i, flavour=flav)})
+            op = {"op": kind, "stage": i, "name": n, "body": body(n, i, flavour=flav)}
+            if share == "update" and rng.random() < 0.85:
+                t = rng.choice([0, 0, 1])
+                op.update(body=body(n, i, flavour=tpl_flavour[t]), share=t)
+            ops.append(op)
             if live.get(n) == i:
                 note_body(cur, ops[-1]["body"])
         elif kind == "deleteComp":
@@ -241,7 +260,62 @@ def gen_history(rng, length, meta):
         else:
             ops.append({"op": "sweep"})
     ops.append({"op": "sweep"})
-    return {"kind": "history", "meta": meta, "doc": doc, "ops": ops}
+    case = {"kind": "history", "meta": meta, "doc": doc, "ops": ops}
+    if share:
+        case["share"] = share
+    return case
+
+
+def component_edits(rng, i, n):
+    """every kind of edit of ONE component through the interface"""
+    return [{"op": "setVar", "stage": i, "name": n, "var": "x", "value": "edited"},
+            {"op": "setVar", "stage": i, "name": n, "var": "fresh", "value": rng.choice([1, "new"])},
+            {"op": "setVarViaRef", "stage": i, "name": n, "var": "y", "value": "edited"},
+            {"op": "delVar", "stage": i, "name": n, "var": "x"},
+            {"op": "setOption", "stage": i, "name": n, "route": "x", "value": "edited"},
+            {"op": "setOption", "stage": i, "name": n, "route": "#command.arguments", "value": "edited %(g)s"},
+            {"op": "setOption", "stage": i, "name": n, "route": "#resourceManager.config.walltime", "value": 120.0},
+            {"op": "setOption", "stage": i, "name": n, "route": "#workflowAttributes.maxRestarts", "value": 9},
+            {"op": "removeOption", "stage": i, "name": n, "route": "y"},
+            {"op": "removeOption", "stage": i, "name": n, "route": "#command.arguments"},
+            {"op": "removeOption", "stage": i, "name": n, "route": "#resourceManager.config.walltime"}]
+
+
+def gen_shared_templates(rng, how):
+    """systematic stream: several components stamped out of ONE template dictionary through add_component
+    (how="add") or update_component (how="update") - ask everything - ONE edit of one of them through the interface
+    - ask everything - an unrelated update that flushes every cache - ask everything; and (add only) the caller
+    scribbling on its dictionary after the call, replacing a component (delete + add) out of the same template"""
+    out = []
+    names = ["c0", "c1", "d"]
+    flav = 6                                      # a body with resourceManager / workflowAttributes sections
+    for e in range(len(component_edits(rng, 0, "w0"))):
+        i = rng.choice([0, 1])
+        if how == "add":
+            stamped = ["w0", "w1", "w2"]
+            ops = [{"op": "addComp", "stage": i, "name": n, "body": body(n, i, flavour=flav), "share": 0} for n in stamped]
+            doc = base_doc(names)
+        else:
+            doc = base_doc(["c0", "c1", "d", "c", "c00"])
+            stamped = [c["name"] for c in doc["components"] if c["stage"] == i][:3]
+            ops = [{"op": "updateComp", "stage": i, "name": n, "body": body(n, i, flavour=flav), "share": 0} for n in stamped]
+        target = rng.choice(stamped)
+        ops += [{"op": "sweep"}, component_edits(rng, i, target)[e], {"op": "sweep"},
+                {"op": "setGlobalVar", "var": "g", "value": "flushed"}, {"op": "sweep"}]
+        out.append({"kind": "history", "meta": False, "doc": doc, "ops": ops, "share": how})
+    if how == "add":
+        for scribble_at in (0, 1):
+            ops = [{"op": "addComp", "stage": 0, "name": n, "body": body(n, 0, flavour=flav), "share": 0,
+                    "scribble": k == scribble_at} for k, n in enumerate(["w0", "w1"])]
+            ops += [{"op": "sweep"}, {"op": "setGlobalVar", "var": "g", "value": "flushed"}, {"op": "sweep"}]
+            out.append({"kind": "history", "meta": False, "doc": base_doc(names), "ops": ops, "share": how})
+        # replace (delete + add) one of the stamped components out of the same template, edit it, ask the others
+        ops = [{"op": "addComp", "stage": 1, "name": n, "body": body(n, 1, flavour=flav), "share": 0} for n in ("w0", "w1")]
+        ops += [{"op": "sweep"}, {"op": "deleteComp", "stage": 1, "name": "w1"},
+                {"op": "addComp", "stage": 1, "name": "w1", "body": body("w1", 1, flavour=flav), "share": 0},
+                {"op": "setVar", "stage": 1, "name": "w1", "var": "x", "value": "replacement"}, {"op": "sweep"}]
+        out.append({"kind": "history", "meta": False, "doc": base_doc(names), "ops": ops, "share": how})
+    return out
 
 
 def setter_op(kind, i, n, v, P, value):
@@ -374,7 +448,28 @@ scramble = K.scramble
 READ_ONLY = ("query", "queryF", "read", "touchComp", "touchVars")
 
 
-def apply_op(conc, op):
+def share_body(store, tid, body):
+    """a dictionary with the content of `body` whose nested sections are the SAME objects that earlier calls with
+    this template id handed in, wherever their content still coincides: a caller that stamps several components
+    out of ONE template dictionary, changing only the name / top-level scalars between the calls"""
+    tpl = store.setdefault(tid, {})
+    out = {}
+    for k, v in body.items():
+        if isinstance(v, (dict, list)):
+            if k in tpl and canon(K.to_json(tpl[k])) == canon(K.to_json(v)):
+                out[k] = tpl[k]
+            else:
+                tpl[k] = out[k] = copy.deepcopy(v)
+        else:
+            out[k] = v
+    return out
+
+
+def apply_op(conc, op, store=None):
+    """one call of the interface on the real object.  store = the caller-side template dictionaries of the object
+    under test: an addComp / updateComp with "share": t hands in a dictionary whose nested sections are shared with
+    the other calls of template t, "scribble": the caller mutates its dictionary after the call.  Without a store
+    (twin, reference objects) every call gets a brand new deep copy."""
     F = _F()
     k = op["op"]
     try:
@@ -419,10 +514,19 @@ def apply_op(conc, op):
             conc.set_platform_global_variable(op["var"], copy.deepcopy(op["value"]), op["platform"])
         elif k == "setPlatStageVar":
             conc.set_platform_stage_variable(op["stage"], op["var"], copy.deepcopy(op["value"]), op["platform"])
-        elif k == "addComp":
-            conc.add_component(copy.deepcopy(op["body"]))
-        elif k == "updateComp":
-            conc.update_component(cid, copy.deepcopy(op["body"]))
+        elif k in ("addComp", "updateComp"):
+            if store is not None and op.get("share") is not None:
+                mine = share_body(store, op["share"], op["body"])
+            else:
+                mine = copy.deepcopy(op["body"])
+            try:
+                if k == "addComp":
+                    conc.add_component(mine)
+                else:
+                    conc.update_component(cid, mine)
+            finally:
+                if store is not None and op.get("scribble"):
+                    scramble(mine)          # the caller re-uses its dictionary for something else
         elif k == "deleteComp":
             conc.delete_component(cid)
         else:
@@ -447,10 +551,11 @@ def run_history(case, want_model_ops=True):
     desc = K.desc_of(conc)
     twin_norm = K.desc_norm(twin)
     flat, answers, failures = [], [], []
+    store = {}          # the caller's template dictionaries (shared between the calls that name the same template)
     for idx, op in enumerate(case["ops"]):
         if op["op"] != "sweep":
             flat.append(op)
-            a = apply_op(conc, op)
+            a = apply_op(conc, op, store)
             answers.append(a)
             if op["op"] in ("query", "queryF"):
                 # private copy: the caller scrambled the answer; the same query again must be unaffected
@@ -840,7 +945,40 @@ def classify_regex_name(what, case, detail):
     return has_meta(detail.get("query", {}).get("name", ""))
 
 
-CLASSIFIERS = {"c08_component_name_with_regex_metacharacters": classify_regex_name}
+UPDATE_ALIAS = "update_component-keeps-the-callers-nested-objects"
+ALIAS_SLUGS = ("query-differs-from-from-scratch-resolution", "query-differs-from-replaying-only-the-updates",
+               "description-differs-from-replaying-only-the-updates",
+               "update-answers-differently-after-read-only-operations", "description-cannot-be-reloaded")
+
+
+def classify_update_alias(what, case, detail):
+    """a divergence inside a history in which >= 2 update_component calls were given dictionaries that share their
+    nested sections (one template dictionary of the caller): update_component() stores the caller's nested objects
+    (component.update(new_flowir) is shallow), so an edit of one of the components rewrites its siblings without
+    invalidating their cached configurations"""
+    if what != UPDATE_ALIAS or case.get("share") != "update":
+        return False
+    shared = [o.get("share") for o in case.get("ops", []) if o.get("op") == "updateComp" and o.get("share") is not None]
+    return any(shared.count(t) >= 2 for t in set(shared))
+
+
+_REGISTERED = []
+
+
+def update_alias_registered():
+    """is the finding in known_findings.json (maintained by the coordinator)? until then it is only tagged"""
+    if not _REGISTERED:
+        from harness.common import load_known
+        try:
+            _REGISTERED.append(any(e.get("classifier") == "c08_update_component_aliases_template"
+                                   for e in load_known("C08")))
+        except Exception:
+            _REGISTERED.append(False)
+    return _REGISTERED[0]
+
+
+CLASSIFIERS = {"c08_component_name_with_regex_metacharacters": classify_regex_name,
+               "c08_update_component_aliases_template": classify_update_alias}
 
 
 def check_ghistory(ctx, case, flat, answers, failures, mo):
@@ -901,8 +1039,19 @@ def check_histories(ctx, cases):
                       ["read:" + o["what"] for o in case["ops"] if o["op"] == "read"] +
                       [K.flag_tag(o["flags"]) for o in case["ops"] if o["op"] == "queryF"] +
                       ["answer:" + (a.get("error") or "ok") for a in answers])
+        aliased = False
         for what, detail in failures:
+            if case.get("share") == "update" and what in ALIAS_SLUGS and classify_update_alias(UPDATE_ALIAS, case, detail):
+                # update_component() keeps the nested objects of the caller's dictionary (a finding of its own,
+                # fixes/C08-update-component-copies.diff): reported once it is registered, tagged until then
+                aliased = True
+                ctx.tag("finding:" + UPDATE_ALIAS)
+                if update_alias_registered():
+                    ctx.fail(UPDATE_ALIAS, case, dict(detail, observed=what))
+                continue
             ctx.fail(what, case, detail)
+        if aliased:
+            continue        # the pure model has value semantics: not comparable once objects are shared
         if mo is not None:
             manswers = [coarse(a) for a in mo["answers"]]
             answers = [coarse(a) for a in answers]
@@ -967,6 +1116,10 @@ def run(ctx):
         cases.append(gen_history(rng, rng.randint(5, 30 if quick else 120), True))
     cases.extend(gen_triples(rng, 1 if quick else 4))
     cases.extend(gen_equal_resets(rng, 6 if quick else None))
+    # components stamped out of ONE dictionary of the caller (add_component / update_component), edited one by one
+    for _ in range(1 if quick else 4):
+        cases.extend(gen_shared_templates(rng, "add"))
+        cases.extend(gen_shared_templates(rng, "update"))
     # second layer: the same question through every object of a real experiment graph
     for k in range(35 if quick else 120):
         cases.append(gen_ghistory(rng, rng.randint(4, 25 if quick else 60), GL.WORLDS[k % len(GL.WORLDS)]))
